@@ -174,7 +174,7 @@ pub fn run(ctx: &RunCtx) -> i32 {
             level: "fault_enumeration",
             rule: format!("codec: every single-attribute message of the full menu and the empty body x 4 tails containing FINGERPRINT (and x 10 headers for the empty body), every ordered pair over the {}-entry (<=64-byte values) menu (quick: one rotating tail per pair): wire bytes == reference (independent CRC-32 XOR 0x5354554e over the RFC input), accepted untouched, and after every single-bit fault at every bit and every byte := ^FF / +1 / 00 / FF at every byte never accepted as carrying a valid FINGERPRINT (acceptance = validating decoder returns it OR get_input_text+validate is true). client: see coverage.client. Non-trivial = message whose whole walk passed", menu_v.len()),
             assumptions: vec!["CRC-32 detects all single-bit and single-byte errors by construction; the walk checks the plumbing (input range, length adjustment, XOR constant, attribute lookup)".into()],
-            required_symbols: vec!["accepted-untampered", "fault-walks", "singles", "pairs"],
+            required_symbols: vec!["accepted-untampered", "fault-walks", "singles", "pairs", "client-packet-ends-in-valid-fingerprint", "client-rejected-bad-or-missing-fingerprint", "client-completed-by-good-reply", "misplaced", "one-bit-wrong", "absent"],
             min_outcomes: 2,
             exhaustive: true,
             bounds: json!({"menu": menu_v.len(), "tails": 4}),
